@@ -114,6 +114,7 @@ let handle (i : string list) (o : string list) =
         with Not_found -> 0) o) in
     let cur_xml = ref 0 in
     let publish_failed = ref false in
+    let c13_events_fail = ref None in
     let xml_seq = ref [] and xml_calls = ref 0 in   (* per publish call of one step: size to use (else cur_xml) *)
     let fdt_ok _ = (if not raptor then true else
                       let len = (match List.nth_opt !xml_seq !xml_calls with Some l -> l | None -> !cur_xml) in
@@ -197,14 +198,24 @@ let handle (i : string list) (o : string list) =
         let before = !cur_xml and after = (if k + 1 < Array.length xlens then xlens.(k + 1) else !cur_xml) in
         let pf0 = !publish_failed in
         let attempt seq = (xml_seq := seq; xml_calls := 0; cur_xml := (match List.rev seq with l :: _ -> l | [] -> before);
-                           publish_failed := pf0; let r = step fdt_npk fdt_ok divf s0 mop in (r, !publish_failed)) in
-        let good (r, _) = (fst r = iout && (snd r).evlog = evs) in
-        let ((mout, s1), pf) =
+                           publish_failed := pf0; let r = step fdt_npk fdt_ok divf s0 mop in (r, !publish_failed, seq)) in
+        let good (r, _, _) = (fst r = iout && (snd r).evlog = evs) in
+        let ((mout, s1), pf, used_seq) =
           (let r1 = attempt [before] in
            if raptor && after <> before && not (good r1) then
              (match List.find_opt good (List.map attempt [[before; after]; [after]; [after; before]]) with
               | Some r -> r | None -> attempt [before])
            else r1) in
+        (* C13 events are judged now, under the same oracle answers as the accepted run of the model *)
+        (match mop with
+         | OpRead now when !c13_events_fail = None ->
+           xml_seq := used_seq; xml_calls := 0; cur_xml := (match List.rev used_seq with l :: _ -> l | [] -> before);
+           (match p_C13_events fdt_npk fdt_ok divf s0 now evs with
+            | C13ok -> ()
+            | C13notWaiting -> c13_events_fail := Some "P_C13_start_of_non_waiting_object"
+            | C13fifo -> c13_events_fail := Some "P_C13_fifo_admission"
+            | C13multiplex -> c13_events_fail := Some "P_C13_multiplex_bound")
+         | _ -> ());
         xml_seq := []; cur_xml := before;
         publish_failed := pf;
         let mview = List.sort compare (List.map (fun (a, b) -> (int_of_n a, int_of_n b)) (files_view s1)) in
@@ -221,7 +232,6 @@ let handle (i : string list) (o : string list) =
                   | _ -> (O, None)) in
               TRead (now, r, npk, listing)
             | _, _ -> failwith "op/out kind mismatch") in
-        (match mop with OpRead now -> evtrace := (now, s0, evs) :: !evtrace | _ -> ());
         trace := (tev, s0) :: !trace;
         views := (List.length !trace, view) :: !views;
         if mout <> iout then diff := Some (Printf.sprintf "op%d:%s:model=%s" k (String.concat "_" t) (show_out mout))
@@ -257,7 +267,7 @@ let handle (i : string list) (o : string list) =
               | C13notWaiting -> Some "P_C13_start_of_non_waiting_object"
               | C13fifo -> Some "P_C13_fifo_admission"
               | C13multiplex -> Some "P_C13_multiplex_bound") (List.rev !evtrace) in
-          match bad with x :: _ -> Some x | [] -> None
+          match !c13_events_fail, bad with Some x, _ -> Some x | None, x :: _ -> Some x | None, [] -> None
         end
       end
       else if prop = "c14" then begin
